@@ -27,8 +27,13 @@ def try_decoding(value: bytes):
 
 
 def split_remote_path(path: str) -> list[str]:
-    """Splits a remote path into parts. Empty parts will be filtered out"""
-    return [part for part in re.split(PATH_SEPERATOR_PATTERN, path) if part]
+    """Splits a remote path into parts. Empty parts and the relative parts
+    ``.`` and ``..`` will be filtered out
+    """
+    return [
+        part for part in re.split(PATH_SEPERATOR_PATTERN, path)
+        if part and part not in ('.', '..')
+    ]
 
 
 def get_duration(attributes: list[Attribute]) -> str:
